@@ -699,6 +699,9 @@ func (w *world) exec(c call) outcome {
 	case "extend":
 		_, o := w.Msg(lockuptypes.NewMsgExtendLockup(w.addr(c.O), c.ID, time.Duration(c.X)*time.Second))
 		return fromApp(o)
+	case "force": // MsgForceUnlock of the whole lock (owners on the module's parameter list only)
+		_, o := w.Msg(lockuptypes.NewMsgForceUnlock(w.addr(c.O), c.ID, sdk.Coins{}))
+		return fromApp(o)
 	case "unlock":
 		return fromApp(w.Try(func(ctx sdk.Context) error { return lk.UnlockMaturedLock(ctx, c.ID) }))
 	case "endblock":
@@ -1082,6 +1085,15 @@ func (r *recorder) nextCall() call {
 			c.X = 150
 		}
 		return c
+	case x < 90 && rng.Intn(4) == 0: // MsgForceUnlock by the lock's owner: the first owner is on the parameter list, the others are not
+		l, ok := r.pick(func(l lockSt) bool { return l.O == r.w.names[0] })
+		if !ok || rng.Intn(5) == 0 {
+			l, ok = r.pick(nil)
+		}
+		if ok {
+			return call{A: "force", O: l.O, D: lockDenom(l), ID: l.ID}
+		}
+		return call{A: "fund", Amt: 1 + rng.Int63n(5_000_000)}
 	case x < 90: // fees arrive; or a validator other than the block signer is jailed (no slash) / released
 		if len(r.w.vals) > 1 && rng.Intn(3) == 0 {
 			return call{A: []string{"jail", "jail", "unjail"}[rng.Intn(3)], V: r.w.vals[1+rng.Intn(len(r.w.vals)-1)]}
@@ -1146,7 +1158,11 @@ func TestRecord(t *testing.T) {
 			}
 		}
 		counts[fmt.Sprintf("history:gamm%d", cfg.Gamm)]++
-		r.observe(map[string]any{"e": "cfg", "a": "init", "owners": w.names, "vals": w.vals, "denoms": w.denoms, "cl": cls,
+		// the first owner may force-unlock its locks (lockup parameter ForceUnlockAllowedAddresses, set by governance)
+		lp := w.App.LockupKeeper.GetParams(w.Ctx)
+		lp.ForceUnlockAllowedAddresses = []string{w.addr(w.names[0]).String()}
+		w.App.LockupKeeper.SetParams(w.Ctx, lp)
+		r.observe(map[string]any{"e": "cfg", "a": "init", "owners": w.names, "vals": w.vals, "denoms": w.denoms, "cl": cls, "allowed": []string{w.names[0]},
 			"unbond": w.unbond, "epochdur": w.epochDur, "risk": apphelp.BigD(w.risk), "unit": units, "seed": seed, "h": h, "config": cfg})
 		epochs := 0
 		zeroed := map[string]bool{}
@@ -1203,6 +1219,10 @@ func TestRecord(t *testing.T) {
 					counts["unlock:refused:undelegating"]++
 				case c.A == "extend" && r.marker(c.ID) != "":
 					counts["extend:refused:held"]++
+				case c.A == "force" && r.marker(c.ID) == "U" && c.O == w.names[0]:
+					counts["force:refused:undelegating"]++
+				case c.A == "force" && r.marker(c.ID) == "B" && c.O == w.names[0]:
+					counts["force:refused:delegated"]++
 				}
 			}
 			r.observe(map[string]any{"e": "op", "a": c.A, "o": c.O, "d": c.D, "x": c.X, "amt": c.Amt, "id": c.ID, "v": c.V, "y": c.Y,
